@@ -32,7 +32,8 @@ else:
 
 AXIOMS_OK = []  # filled below once Print Assumptions has been read
 
-COQ_CASES_QUICK, COQ_CASES_THOROUGH, COQ_SHARD = 6000, 120000, 400
+COQ_CASES_QUICK, COQ_CASES_THOROUGH, COQ_SHARD = 6000, 120000, 380
+COQ_HEAVY_QUICK, COQ_HEAVY_THOROUGH = 48, 3000
 
 TRUSTED = ["hand-written Gallina model of Decimal.Float64 / pow5 over Flocq 4 (BinarySingleNaN, binary_float 53 1024, mode_NE)",
            "Flocq's formalisation of IEEE-754 binary64 and the Coq Reals axioms it stands on",
@@ -529,6 +530,11 @@ def gen_numerals(ctx):
     return out
 
 
+def coq_num(n):
+    """big literals in hex: coqc reads a decimal literal in quadratic time"""
+    return str(n) if n < 10 ** 30 else hex(n)
+
+
 def classify_misrounding(mant, exp, binary, got_abs):
     """key for a wrong result, by the branch the representation takes and by whether the known
     mechanism reproduces the implementation's bits exactly"""
@@ -632,8 +638,9 @@ def run(ctx):
         n_here = per_stratum.get(stratum, 0)
         if not heavy:
             per_stratum[stratum] = n_here + 1
-            terms.append((stratum, "CNum %s %s %s %s %d %s" % (coq_bool(bool(flags & 1)), coq_bool(binary), o["mant"],
-                                                                  coq_Z(exp), got, coq_bool(o["exact"]))))
+            terms.append((stratum, "CNum %s %s %s %s %d %s" % (coq_bool(bool(flags & 1)), coq_bool(binary), coq_num(mant),
+                                                                  coq_Z(exp), got, coq_bool(o["exact"])),
+                          len(o["mant"]) if br == "strconv" else len(o["mant"]) // 8))
             meta.append(({"s": s}, o))
     for st in ("corpus", "small-exhaustive", "halfway-dec", "hex"):
         for (x, s) in nums:
@@ -657,7 +664,7 @@ def run(ctx):
             ctx.corr_break("decfloat:fields", i, o)
             continue
         ctx.count(("f", i["mant"], i["exp"], i["neg"], i["bin"]), True, "fields")
-        terms.append(("fields", "CNum %s %s %s %s %s %s" % (coq_bool(i["neg"]), coq_bool(i["bin"]), i["mant"], coq_Z(i["exp"]), o["bits"], coq_bool(o["exact"]))))
+        terms.append(("fields", "CNum %s %s %s %s %s %s" % (coq_bool(i["neg"]), coq_bool(i["bin"]), coq_num(int(i["mant"])), coq_Z(i["exp"]), o["bits"], coq_bool(o["exact"])), 0))
         meta.append((i, o))
 
     # pow5 alone, and the compiled tables against the transcription
@@ -671,30 +678,46 @@ def run(ctx):
             ctx.corr_break("decfloat:pow5", i, o)
             continue
         ctx.count(("p", i["f"], i["n"]), True, "pow5")
-        terms.append(("pow5", "CPow5 %s %s %s" % (i["f"], coq_Z(i["n"]), o["bits"])))
+        terms.append(("pow5", "CPow5 %s %s %s" % (i["f"], coq_Z(i["n"]), o["bits"]), 0))
         meta.append((i, o))
     to = ctx.impl("decfloat", [{"mode": "tables"}], shards=1)[0]
     if "crash" in to or "panic" in to:
         ctx.corr_break("decfloat:tables", {}, to)
     else:
         for wi, name in enumerate(TABLES):
-            terms.append(("tables", "CLen %d %d" % (wi, len(to[name]))))
+            terms.append(("tables", "CLen %d %d" % (wi, len(to[name])), 0))
             meta.append(({"table": name, "len": True}, {"len": len(to[name])}))
             for k, b in enumerate(to[name]):
                 ctx.count(("t", name, k), True, "tables")
-                terms.append(("tables", "CTab %d %d %s" % (wi, k, b)))
+                terms.append(("tables", "CTab %d %d %s" % (wi, k, b), 0))
                 meta.append(({"table": name, "index": k}, {"bits": b}))
 
     # in-Coq evaluation: everything from the small strata, a budgeted sample of the large ones
     small = {"corpus", "tables", "pow5", "fields", "guards", "overflow", "dec-mantissa-bin-exponent"}
-    idx_small = [k for k, (st, _) in enumerate(terms) if st in small]
-    idx_big = [k for k, (st, _) in enumerate(terms) if st not in small]
-    room = max(0, coq_budget - len(idx_small))
+    # (a case with a mantissa of several hundred digits costs about a second in coqc: those are capped)
+    heavy = [k for k, t in enumerate(terms) if t[2] > 100]
+    heavy = rng.shuffle(heavy)[:ctx.budget(COQ_HEAVY_QUICK, COQ_HEAVY_THOROUGH)]
+    idx_small = [k for k, t in enumerate(terms) if t[0] in small and t[2] <= 100]
+    idx_big = [k for k, t in enumerate(terms) if t[0] not in small and t[2] <= 100]
+    room = max(0, coq_budget - len(idx_small) - len(heavy))
     if len(idx_big) > room:
-        idx_big = sorted(rng.shuffle(idx_big)[:room])
-    chosen = sorted(idx_small + idx_big)
+        idx_big = rng.shuffle(idx_big)[:room]
+    # heavy cases are spread over the shards
+    light = sorted(idx_small + idx_big)
+    chosen = []
+    step = max(1, len(light) // max(1, len(heavy)))
+    hq = list(heavy)
+    for j, k in enumerate(light):
+        if j % step == 0 and hq:
+            chosen.append(hq.pop())
+        chosen.append(k)
+    chosen += hq
     timing["impl2_s"] = round(_t.time() - t0, 1)
     t0 = _t.time()
+    if os.environ.get("C39_DUMP_TERMS"):
+        with open(os.environ["C39_DUMP_TERMS"], "w") as f:
+            for k in chosen:
+                f.write("%s\t%d\t%s\n" % (terms[k][0], terms[k][2], terms[k][1]))
     header = ("From Coq Require Import List ZArith NArith Bool.\nImport ListNotations.\n"
               "From PV Require Import Common.Corr %s.\nOpen Scope N_scope.\n" % MODEL_IMPORT)
     mism, err = coq_eval_mismatches("cases_C39", header, [terms[k][1] for k in chosen], CHK, shard_size=COQ_SHARD)
